@@ -336,7 +336,7 @@ def run_case(case):
         ethertype = struct.unpack("!H", data[12:14])[0]
         before = (m.stats["stale_hit"], m.stats["masked"], m.stats["hold_down"], m.stats["hit"])
         vs = m.judge(hp["t"], hp["in_port"], data[6:12], data[0:6], ethertype, meta["tmpl"],
-                     hp["packet_in"], [p for p, _ in hp["outs"]])
+                     hp["packet_in"], [p for p, _ in hp["outs"]], epoch=(hp["sw"], hp["wave"]))
         if len(hp["outs"]) == 1 and hp["packet_in"] and not B.is_multicast(data[0:6]):
           st_["flow"] = True
         for clause, msg, extra in vs:
